@@ -190,6 +190,8 @@ class Table:
             uri, local = '', n.name
         if k == 'pfx*':
             return uri == nsmap[test[1]]
+        if k == '*local':
+            return local == test[1]          # *:NCName (XPath 2.0+): any namespace, or none
         if k == 'name':
             want_uri = nsmap[test[2]] if test[2] else ''
             return local == test[1] and uri == want_uri
@@ -206,6 +208,10 @@ class Table:
             return pos == size - p[1]
         if k == 'pos':
             return _cmp(pos, p[1], p[2])
+        if k == 'posnum':
+            return True                      # [position()]: a number that equals the position of every item
+        if k == 'countnum':
+            return pos == len(self.eval_path(p[1], n, nsmap)) + p[2]    # a number that varies with the item
         if k == 'attr':
             return any(a.name == p[1] for a in self.axis('attribute', n))
         if k == 'attrcmp':
@@ -230,6 +236,10 @@ class Table:
                 return not (size != 0)
             if q[0] == 'lastminus':
                 return not (size - q[1] != 0)
+            if q[0] == 'posnum':
+                return False
+            if q[0] == 'countnum':
+                return not (len(self.eval_path(q[1], n, nsmap)) + q[2] != 0)
             return not self.pred(q, n, pos, size, nsmap)
         if k == 'count':
             return _cmp(len(self.eval_path(p[1], n, nsmap)), p[2], p[3])
@@ -313,6 +323,8 @@ def render_test(test):
         return '*'
     if k == 'pfx*':
         return '%s:*' % test[1]
+    if k == '*local':
+        return '*:%s' % test[1]
     return ('%s:%s' % (test[2], test[1])) if test[2] else test[1]
 
 
@@ -326,6 +338,10 @@ def render_pred(p):
         return 'last() - %d' % p[1]
     if k == 'pos':
         return 'position() %s %d' % (p[1], p[2])
+    if k == 'posnum':
+        return 'position()'
+    if k == 'countnum':
+        return 'count(%s) + %d' % (render(p[1]), p[2]) if p[2] else 'count(%s)' % render(p[1])
     if k == 'attr':
         return '@' + _attr_lex(p[1])
     if k == 'attrcmp':
